@@ -26,7 +26,8 @@ ASSUMPTIONS = [
     "chunk policies are sampled, not all 255^k request sequences",
 ]
 FLOORS = {"quick": {"evaluations": 500, "stream_comparisons": 1200, "success_replies": 200,
-                    "hostile_cases": 100, "v1_cases": 40, "distinct": 100},
+                    "hostile_cases": 100, "v1_cases": 40, "distinct": 100,
+                    "chunk_contract_evaluations": 1000},
           "thorough": {"evaluations": 30000, "stream_comparisons": 60000,
                        "success_replies": 10000, "hostile_cases": 5000, "v1_cases": 2000,
                        "distinct": 2000}}
@@ -306,8 +307,79 @@ def run_case(acc, c, spec, stacks):
             stacks.pop(key, None)
 
 
+def install_chunk_contract(acc):
+    """function-level contract on the real HSM2Dongle._send_data_in_chunks (icontract
+    when installed): the chunks handed to _send_command, concatenated, are a prefix of
+    `data`; on success with expect_full_data they are all of it.  A second observation
+    point beside the device-side reassembly."""
+    from ledger.hsm2dongle import HSM2Dongle as D
+    if getattr(D._send_data_in_chunks, "_pv_wrapped", False):
+        return
+    orig_chunks = D._send_data_in_chunks
+    orig_send = D._send_command
+
+    def send(self, command, data=b"", timeout=D.DONGLE_TIMEOUT):
+        rec = getattr(self, "_pv_chunk_rec", None)
+        if rec is not None:
+            rec.append(bytes(data[1:]))
+        return orig_send(self, command, data, timeout)
+
+    def post(self, data, expect_full_data, result):
+        sent = b"".join(self._pv_chunk_rec)
+        acc.count("chunk_contract_evaluations")
+        ok = bytes(data).startswith(sent) and \
+            (not (result[0] and expect_full_data) or sent == bytes(data))
+        if not ok:
+            acc.violation("chunk-contract:sent-bytes-not-%s-of-data" % (
+                "all" if bytes(data).startswith(sent) else "a-prefix"),
+                {"sent": len(sent), "data": len(data), "success": bool(result[0])},
+                {"case": None})
+        return True
+
+    def wrapped(self, command, operation, next_operations, data, expect_full_data,
+                initial_bytes, operation_name, data_description):
+        self._pv_chunk_rec = []
+        try:
+            result = orig_chunks(self, command, operation, next_operations, data,
+                                 expect_full_data, initial_bytes, operation_name,
+                                 data_description)
+            post(self, data, expect_full_data, result)
+            return result
+        finally:
+            self._pv_chunk_rec = None
+    try:
+        import icontract
+
+        def cond(self, data, expect_full_data, result):
+            return post(self, data, expect_full_data, result)
+
+        def inner(self, command, operation, next_operations, data, expect_full_data,
+                  initial_bytes, operation_name, data_description):
+            return orig_chunks(self, command, operation, next_operations, data,
+                               expect_full_data, initial_bytes, operation_name,
+                               data_description)
+        checked = icontract.ensure(cond, error=AssertionError)(inner)
+
+        def wrapped(self, command, operation, next_operations, data, expect_full_data,  # noqa
+                    initial_bytes, operation_name, data_description):
+            self._pv_chunk_rec = []
+            try:
+                return checked(self, command, operation, next_operations, data,
+                               expect_full_data, initial_bytes, operation_name,
+                               data_description)
+            finally:
+                self._pv_chunk_rec = None
+        acc.count("icontract_postcondition_used")
+    except ImportError:
+        pass
+    wrapped._pv_wrapped = True
+    D._send_command = send
+    D._send_data_in_chunks = wrapped
+
+
 def run_shard(spec, acc):
     env.setup()
+    install_chunk_contract(acc)
     rng = random.Random(spec["seed"])
     stacks = {}
     for i in range(spec["n"]):
